@@ -67,11 +67,14 @@ def _seed_overrides(ix, sid, corpus='seeded'):
     rels = sorted(set(re.findall(r'^\+\+\+ b/(\S+)', text, flags=re.M)))
     tmp = tempfile.mkdtemp(prefix='sa-seed-')
     try:
+        created = set(re.findall(r'^--- /dev/null\n\+\+\+ b/(\S+)', text, flags=re.M))
         for rel in rels:
             src = os.path.join(ix.root, rel)
+            os.makedirs(os.path.dirname(os.path.join(tmp, rel)), exist_ok=True)
+            if rel in created:
+                continue            # a file the change adds (a function moved to a new module)
             if not os.path.exists(src):
                 return None, 'file %s is gone' % rel
-            os.makedirs(os.path.dirname(os.path.join(tmp, rel)), exist_ok=True)
             shutil.copy(src, os.path.join(tmp, rel))
         r = subprocess.run(['patch', '-p1', '-s', '-f', '-d', tmp, '-i', pth], capture_output=True, text=True)
         if r.returncode != 0:
